@@ -24,7 +24,8 @@ RULE = (
     "repository-changing operation (add_object, add_objects, commit, set_if_equals, remove_if_equals, set_symbolic_ref, "
     "pack_refs, add_packed_refs with removals, add_thin_pack, add_pack+commit, pack_loose_objects, repack, "
     "repack(exclude), garbage_collect, prune, Index.write, build_index_from_tree, config write, write_commit_graph, "
-    "write_midx, local fetch).  The operation runs once under the interposer; the repository directory is copied "
+    "write_midx, local fetch), optionally after another operation (pack_refs, repack, gc, commit, pack_loose_objects, "
+    "add_thin_pack, fetch) has run to completion.  The operation runs once under the interposer; the repository directory is copied "
     "before every file-system event at which its state changed (process-crash model: completed writes survive, data "
     "still buffered in Python is lost), de-duplicated by state hash - i.e. EVERY crash point of the scenario.  With "
     "fsync enabled each snapshot also yields power-loss variants (files written since their last fsync emptied or "
@@ -294,13 +295,15 @@ def judge_snapshot(ctx, snap, pre, post, pre_closure, case, check="crash"):
 # one scenario
 
 
-def run_scenario(ctx, layout, refs_layout, opname, fsync=False, only_snapshot=None, check="crash"):
+def run_scenario(ctx, layout, refs_layout, opname, fsync=False, only_snapshot=None, check="crash", prefix=None):
+    """``prefix``: an operation that runs to completion (undisturbed) first, so that the crashing operation starts from
+    the state another operation leaves (freshly packed refs, one consolidated pack, a new commit, ...)."""
     from dulwich.repo import Repo
 
     work = ctx.scratch.new("c9")
     repo = os.path.join(work, "repo")
     info = repos.init_repo(repo, layout, refs_layout)
-    if opname == "fetch":
+    if "fetch" in (opname, prefix):
         peer = os.path.join(work, "peer")
         pinfo = repos.init_repo(peer, "loose", "loose", variant=1)
         pr = Repo(peer)
@@ -327,6 +330,18 @@ def run_scenario(ctx, layout, refs_layout, opname, fsync=False, only_snapshot=No
             f.write(b"junk")
         os.utime(os.path.join(r.object_store.path, "tmp_pack_leftover"), (1, 1))
         r.close()
+    if prefix is not None:
+        with warnings.catch_warnings():
+            warnings.simplefilter("ignore")
+            r = Repo(repo)
+            try:
+                operations()[prefix](r, info)
+            except Exception as e:
+                shutil.rmtree(work, ignore_errors=True)
+                raise HarnessError(f"prefix operation {prefix} failed in {layout}/{refs_layout}: {type(e).__name__}: {e}")
+            finally:
+                r.close()
+        gc.collect()
     pre = state_of(repo)
     r = Repo(repo)
     pre_closure = repos.closure(repos.dulwich_getter(r.object_store), [v for v in pre[0].values() if v])
@@ -356,6 +371,11 @@ def run_scenario(ctx, layout, refs_layout, opname, fsync=False, only_snapshot=No
     finally:
         ip.uninstall()
     gc.collect()
+    if err is not None and prefix is not None:
+        # after another operation this one may have nothing to act on (e.g. the objects it adds are there already)
+        ctx.label(f"op-fails-after-prefix:{prefix}->{opname}:{type(err).__name__}")
+        shutil.rmtree(work, ignore_errors=True)
+        return 0, 0
     if err is not None:
         shutil.rmtree(work, ignore_errors=True)
         raise HarnessError(f"scenario {layout}/{refs_layout}/{opname} failed undisturbed: {type(err).__name__}: {err}")
@@ -368,10 +388,13 @@ def run_scenario(ctx, layout, refs_layout, opname, fsync=False, only_snapshot=No
         if only_snapshot is not None and k != only_snapshot:
             continue
         case = dict(layout=layout, refs=refs_layout, op=opname, fsync=fsync, snapshot=k, next=s["next"])
+        if prefix is not None:
+            case["prefix"] = prefix
         intermediate = 0 < k < len(pol.snaps) - 1
         ok = judge_snapshot(ctx, s["path"], pre, post, pre_closure, case, check)
-        ctx.case(h64("c9", layout, refs_layout, opname, fsync, s["state"]), nontrivial=intermediate,
-                 labels=("snapshot", "op:" + opname, "layout:" + layout + "/" + refs_layout) + (("intermediate",) if intermediate else ()),
+        ctx.case(h64("c9", layout, refs_layout, opname, fsync, prefix, s["state"]), nontrivial=intermediate,
+                 labels=("snapshot", "op:" + opname, "layout:" + layout + "/" + refs_layout) + (("intermediate",) if intermediate else ())
+                 + (("after:" + prefix,) if prefix else ()),
                  sample=dict(scenario=f"{layout}/{refs_layout}/{opname}", snapshot=k, of=len(pol.snaps), crash_before=s["next"]) if intermediate and k == 2 else None)
         if fsync and s["unsynced"]:
             # power loss: every file with unsynced data individually (and all together) loses what was written
@@ -425,12 +448,25 @@ def scenarios(ctx):
             if op in NEEDS_PACKS and lay == "loose":
                 continue
             out.append((lay, rl, op, True))
+    # two-step histories: the crashing operation starts from the state another operation has just left
+    prefixes = [p for p in ("pack_refs", "repack", "gc(grace=0)", "commit", "pack_loose_objects", "add_thin_pack", "fetch") if p in ops]
+    if not prefixes:
+        raise HarnessError(f"prefix operations not found among {ops}")
+    pairs = [(p, op) for p in prefixes for op in ops if op != "fetch" and p != "fetch" or (p == "fetch") != (op == "fetch")]
+    if not ctx.thorough:
+        # quick: a rotating eighth of the pairs in the mixed layout
+        pairs = [pq for k, pq in enumerate(pairs) if (k + ctx.seed) % 8 == 0]
+    for lay, rl in (layouts if ctx.thorough else [("mixed", "mixed")]):
+        for p, op in pairs:
+            if (op in NEEDS_PACKS or p in NEEDS_PACKS) and lay == "loose":
+                continue
+            out.append((lay, rl, op, False, p))
     return out
 
 
 def _part(ctx, item):
-    lay, rl, op, fsync = item
-    n, ev = run_scenario(ctx, lay, rl, op, fsync)
+    lay, rl, op, fsync = item[:4]
+    n, ev = run_scenario(ctx, lay, rl, op, fsync, prefix=item[4] if len(item) > 4 else None)
     ctx.label("scenario")
     ctx.extra["events_total"] = ctx.extra.get("events_total", 0) + ev
 
@@ -469,4 +505,4 @@ def run(ctx):
 
 
 def replay(ctx, check, case):
-    run_scenario(ctx, case["layout"], case["refs"], case["op"], case.get("fsync", False), only_snapshot=case.get("snapshot"))
+    run_scenario(ctx, case["layout"], case["refs"], case["op"], case.get("fsync", False), only_snapshot=case.get("snapshot"), prefix=case.get("prefix"))
